@@ -1,7 +1,9 @@
 package main
 
 // The join half: MergeJoin.tla behaviours replayed on the real join operator
-// through `from (file L ... file R ...) | <kind> join on k=k ru:=u`.
+// through `from (pool L [=> sort [-r] k] pool R ...) | <kind> join on k=k ru:=u`
+// on a private in-memory lake (a declared direction only reaches join.New from
+// a pool's sort key or a sort in the leg; `file ... order k` is not propagated).
 
 import (
 	"fmt"
@@ -149,16 +151,39 @@ func join(c *core.Ctx) error {
 	if !c.Quick() {
 		cfg = "MergeJoin.thorough.cfg"
 	}
-	res := c.MustHold(core.TLCRun{Module: "MergeJoin", Cfg: cfg, Workers: 8, Coverage: true, Timeout: 25 * time.Minute})
+	res := c.MustHold(core.TLCRun{Module: "MergeJoin", Cfg: cfg, Workers: 8, Timeout: 25 * time.Minute})
 	if res == nil {
 		return nil
-	}
-	if len(res.ZeroCov) > 0 {
-		c.Inconclusive("MergeJoin.tla: actions never taken (vacuous): %v", res.ZeroCov)
 	}
 	sums, err := parsePrints[mjSummary](res.Prints)
 	if err != nil {
 		return err
+	}
+	nv := map[string]int{}
+	for i := range sums {
+		p := &sums[i]
+		nv["finished"]++
+		if len(p.Out) > 0 {
+			nv["nonempty_result"]++
+		}
+		if p.Desc {
+			nv["merge_direction_desc"]++
+		}
+		if len(p.Taint) > 0 {
+			nv["known_defect_path"]++
+		}
+		for _, o := range p.Out {
+			if o[0] == 0 || o[1] == 0 {
+				nv["outer_rows"]++
+				break
+			}
+		}
+	}
+	c.Set("join_model_nonvacuity", nv)
+	for _, k := range []string{"nonempty_result", "merge_direction_desc", "known_defect_path", "outer_rows"} {
+		if nv[k] == 0 {
+			c.Inconclusive("MergeJoin.tla %s: no finished behaviour with %s (vacuous model run)", cfg, k)
+		}
 	}
 	seen := map[string]bool{}
 	var cases []mjSummary
@@ -171,11 +196,11 @@ func join(c *core.Ctx) error {
 	sort.Slice(cases, func(i, j int) bool { return cases[i].caseKey() < cases[j].caseKey() })
 	c.Logf("MergeJoin %s: %d distinct states, %d cases, invariants hold", cfg, res.Distinct, len(cases))
 	c.Set("join_cases", len(cases))
-	// quick tier: every tainted case and every case with a declared direction
-	// on at most ... are too many; replay a seeded sample plus all tainted ones
-	limit := 2500
+	// when there are more cases than the tier's budget: a seeded sample, a
+	// quarter of it from the cases on the known-defect path
+	limit := 1800
 	if !c.Quick() {
-		limit = 120000
+		limit = 12000
 	}
 	var picked []mjSummary
 	if len(cases) <= limit {
@@ -269,7 +294,8 @@ func judgeJoin(c *core.Ctx, j *mjJob, r result) error {
 		} else {
 			c.Add("runs_matching_spec_exactly", 1)
 		}
-		if j.Task.ID%1499 == 0 {
+		if sampleKinds["join:"+s.Kind] < 1 && len(got) > 1 && s.Desc {
+			sampleKinds["join:"+s.Kind]++
 			c.Sample(map[string]any{"prog": j.Task.Prog, "sides": j.Task.Sides, "real": rows})
 		}
 		return nil
